@@ -24,6 +24,7 @@ fn dispatch(args: &[&str]) -> Option<String> {
         "sweep" => sweep::run(args),
         "race" => race::run(args),
         "uf" => args.get(1).map(|s| ide::verif_union_find_script(s)),
+        "collect" => args.get(1).map(|s| ide::verif_collect_script(s)),
         "modname" | "projparent" | "lowervfs" | "assemble" => project::run(args),
         _ => ide_cmd::run(args),
     }
